@@ -1,10 +1,10 @@
-\* C18 procedure machine: sequential, restores parameters and supplied initial values: every property holds
+\* C18 procedure machine: open chain (unique steady state): the early restore is invisible - every property still holds
 CONSTANTS
     Mode = "seq"
     RestorePars = TRUE
     RestoreY0 = TRUE
     Cyclic = FALSE
-    EarlyRestoreY0 = FALSE
+    EarlyRestoreY0 = TRUE
 INIT Init
 NEXT Next
 INVARIANT ParsRestored
